@@ -167,6 +167,24 @@ def rule_r1(prog, res) -> None:
                 )
             if npaths == len(exits):
                 res.ok("C09.R1", res.site(fi, f"with {ci.name}"), f"all {len(exits)} exits of the with-block (incl. exception edges) release the writer before join")
+    # the queue that feeds a process which may die must be unbounded: nobody watches the writer while chunks are put
+    for ci in classes:
+        for fi, item in _with_users(prog, ci):
+            for c in calls_in(fi):
+                if isinstance(c.func, ast.Attribute) and c.func.attr in ("Queue", "JoinableQueue", "SimpleQueue") and "manager" in unparse(c.func.value).lower() or (dotted(c.func) or "").endswith("multiprocessing.Queue"):
+                    ms = kwarg(c, "maxsize") or (c.args[0] if c.args else None)
+                    bounded = ms is not None and not (isinstance(ms, ast.Constant) and isinstance(ms.value, int) and ms.value <= 0)
+                    if bounded:
+                        res.violation(
+                            "C09.R1",
+                            fi,
+                            c,
+                            f"the patch queue is bounded (maxsize={unparse(ms)}): if the writer process dies (existing cache without overwrite, unusable location) nobody drains it and the workers' "
+                            "and the parent's put() block forever instead of raising",
+                            key_extra="bounded-queue",
+                        )
+                    else:
+                        res.ok("C09.R1", res.site(fi, norm_stmt(c)), "queue is unbounded: put() cannot block when the writer has died")
     if n_inst == 0:
         raise AnalysisError("C09.R1: no `with <writer process>` site found (anchor vanished)")
     res.count("C09.R1.sites", n_inst)
